@@ -107,6 +107,8 @@ func computeIpdom(fn *ssa.Function) map[*ssa.BasicBlock]*ssa.BasicBlock {
 type mergeEdge struct {
 	guard *Term
 	from  *ssa.BasicBlock
+	ret   []Value // results, when the edge ends in a Return
+	isRet bool
 }
 
 // tryMerge evaluates both arms of a symbolic If when the region up to the
@@ -118,7 +120,7 @@ func (in *Interp) tryMerge(fr *frame, instr *ssa.If, c *Term) bool {
 	blk := fr.block
 	J := in.ipdomOf(fr.fn)[blk]
 	if J == nil {
-		return false
+		return in.tryMergeReturn(fr, instr, c)
 	}
 	var edges []mergeEdge
 	budget := 16
@@ -210,10 +212,10 @@ func sameValue(a, b Value) bool {
 
 func (in *Interp) spec(fr *frame, b, pred *ssa.BasicBlock, guard *Term, J *ssa.BasicBlock, edges *[]mergeEdge, budget *int) bool {
 	if b == J {
-		*edges = append(*edges, mergeEdge{guard, pred})
+		*edges = append(*edges, mergeEdge{guard: guard, from: pred})
 		return true
 	}
-	if len(b.Preds) != 1 {
+	if len(b.Preds) != 1 || (J == nil && b == fr.block) {
 		return false
 	}
 	*budget--
@@ -227,6 +229,16 @@ func (in *Interp) spec(fr *frame, b, pred *ssa.BasicBlock, guard *Term, J *ssa.B
 		}
 	}
 	switch t := b.Instrs[n-1].(type) {
+	case *ssa.Return:
+		if J != nil {
+			return false
+		}
+		e := mergeEdge{guard: guard, from: b, isRet: true}
+		for _, r := range t.Results {
+			e.ret = append(e.ret, fr.get(r))
+		}
+		*edges = append(*edges, e)
+		return true
 	case *ssa.Jump:
 		return in.spec(fr, b.Succs[0], b, guard, J, edges, budget)
 	case *ssa.If:
@@ -359,4 +371,55 @@ func (in *Interp) pureEval(fr *frame, ins ssa.Instruction) (ok bool) {
 	}
 	in.steps++
 	return in.visitInstr(fr, ins) == kNext
+}
+
+// tryMergeReturn handles `if c { return x }; return y` shapes: both arms are
+// pure and end in Return; the results are joined with ite and the frame returns.
+func (in *Interp) tryMergeReturn(fr *frame, instr *ssa.If, c *Term) bool {
+	if fr.defers != nil {
+		return false
+	}
+	blk := fr.block
+	var edges []mergeEdge
+	budget := 12
+	stepsBefore := in.steps
+	ok := in.spec(fr, blk.Succs[0], blk, c, nil, &edges, &budget) &&
+		in.spec(fr, blk.Succs[1], blk, in.tc.Not(c), nil, &edges, &budget)
+	if !ok || len(edges) == 0 {
+		in.steps = stepsBefore
+		return false
+	}
+	nres := len(edges[0].ret)
+	merged := make([]Value, nres)
+	for i := 0; i < nres; i++ {
+		for k, e := range edges {
+			if len(e.ret) != nres {
+				return false
+			}
+			v := e.ret[i]
+			if k == 0 {
+				merged[i] = v
+				continue
+			}
+			mt, ok1 := merged[i].(*Term)
+			vt, ok2 := v.(*Term)
+			if ok1 && ok2 && mt.W == vt.W {
+				merged[i] = in.tc.Ite(e.guard, vt, mt)
+				continue
+			}
+			if !sameValue(merged[i], v) {
+				return false
+			}
+		}
+	}
+	switch nres {
+	case 0:
+	case 1:
+		fr.result = merged[0]
+	default:
+		fr.result = Tuple(merged)
+	}
+	fr.block = nil
+	fr.mergedReturn = true
+	return true
 }
